@@ -146,10 +146,13 @@ pub trait PrimeField: 'static + core::iter::Sum<Self> + Sized + Copy + Clone + c
 pub open spec fn f_sub<F: PrimeField>(a: F, b: F) -> F { F::s_add(a, F::s_neg(b)) }
 
 // operators on field elements mean the spec operations (the `*_req` preconditions are trivially true)
-pub broadcast axiom fn ax_obeys<F: PrimeField>() ensures
-    #[trigger] <F as AddSpec<F>>::obeys_add_spec(), <F as SubSpec<F>>::obeys_sub_spec(), <F as MulSpec<F>>::obeys_mul_spec(),
-    <F as NegSpec>::obeys_neg_spec(), <F as AddAssignSpec<F>>::obeys_add_assign_spec(), <F as SubAssignSpec<F>>::obeys_sub_assign_spec(),
-    <F as MulAssignSpec<F>>::obeys_mul_assign_spec();
+pub broadcast axiom fn ax_obeys_add<F: PrimeField>() ensures #[trigger] <F as AddSpec<F>>::obeys_add_spec();
+pub broadcast axiom fn ax_obeys_sub<F: PrimeField>() ensures #[trigger] <F as SubSpec<F>>::obeys_sub_spec();
+pub broadcast axiom fn ax_obeys_mul<F: PrimeField>() ensures #[trigger] <F as MulSpec<F>>::obeys_mul_spec();
+pub broadcast axiom fn ax_obeys_neg<F: PrimeField>() ensures #[trigger] <F as NegSpec>::obeys_neg_spec();
+pub broadcast axiom fn ax_obeys_add_assign<F: PrimeField>() ensures #[trigger] <F as AddAssignSpec<F>>::obeys_add_assign_spec();
+pub broadcast axiom fn ax_obeys_sub_assign<F: PrimeField>() ensures #[trigger] <F as SubAssignSpec<F>>::obeys_sub_assign_spec();
+pub broadcast axiom fn ax_obeys_mul_assign<F: PrimeField>() ensures #[trigger] <F as MulAssignSpec<F>>::obeys_mul_assign_spec();
 pub broadcast axiom fn ax_add<F: PrimeField>(a: F, b: F)
     ensures #[trigger] <F as AddSpec<F>>::add_spec(a, b) == F::s_add(a, b);
 pub broadcast axiom fn ax_add_req<F: PrimeField>(a: F, b: F) ensures #[trigger] <F as AddSpec<F>>::add_req(a, b);
@@ -180,7 +183,7 @@ pub broadcast axiom fn ax_mulr_assign<F: PrimeField>(a: F, b: &F)
 pub broadcast axiom fn ax_mulr_assign_req<F: PrimeField>(a: F, b: &F)
     ensures #[trigger] <F as MulAssignSpec<&F>>::mul_assign_req(&a, b), <F as MulAssignSpec<&F>>::obeys_mul_assign_spec();
 pub broadcast group field_ops {
-    ax_obeys, ax_add, ax_sub, ax_mul, ax_mulr, ax_neg, ax_add_assign, ax_sub_assign, ax_mul_assign, ax_mulr_assign,
+    ax_obeys_add, ax_obeys_sub, ax_obeys_mul, ax_obeys_neg, ax_obeys_add_assign, ax_obeys_sub_assign, ax_obeys_mul_assign, ax_add, ax_sub, ax_mul, ax_mulr, ax_neg, ax_add_assign, ax_sub_assign, ax_mul_assign, ax_mulr_assign,
     ax_add_req, ax_sub_req, ax_mul_req, ax_mulr_req, ax_neg_req, ax_add_assign_req, ax_sub_assign_req, ax_mul_assign_req, ax_mulr_assign_req,
 }
 
